@@ -271,6 +271,7 @@ SPEC = {
         {"comp": "sim_c20_v3", "module": "QV.Sys.MonC20", "quick": 40, "thorough": 800},
         {"comp": "sim_c20_v4", "module": "QV.Sys.MonC20", "quick": 24, "thorough": 400},
         {"comp": "sim_c20_v5", "module": "QV.Sys.MonC20", "quick": 16, "thorough": 300},
+        {"comp": "sim_c20_cot", "module": "QV.Sys.MonC20", "quick": 16, "thorough": 300},
     ],
     "extra": [ambient_inventory],
     "assumptions": [
